@@ -1,0 +1,10 @@
+//go:build verif
+
+// Contracts for package optimizer, read by /verif/engine (comment-only file: with the
+// verif tag off it does not exist for the compiler; with it on it adds nothing).
+package optimizer
+
+// package-level type constants: set once by the package initialiser, never assigned again
+//@ func optimizer.init
+//@   property C02 C15
+//@   ensures[basic-types] integerType == rtype("int") && stringType == rtype("string")
